@@ -104,6 +104,11 @@ class SeqRun(object):
         self.E = dict((e.name, ns[e.name]) for e in self.schema.entities)
         if self.knobs.get('max_params_count'):
             db.provider.max_params_count = int(self.knobs['max_params_count'])
+        if 'nplus1' in self.knobs:
+            for e in self.schema.entities:
+                for a in e.attrs:
+                    if a.is_set:
+                        getattr(self.E[e.name], a.name).nplus1_threshold = self.knobs['nplus1']
         self.dump_sql = self._make_dump_sql()
 
     def _make_dump_sql(self):
@@ -256,6 +261,28 @@ class SeqRun(object):
         assert pk is not None, mo
         e = self.schema.by_name[mo.ent]
         how = self.knobs.get('fetch', 0)
+        if how >= 2:
+            # reach the object first as an unloaded reference (a "seed" known only by its primary key):
+            # load some stored object that refers to it and navigate
+            for r in sorted(self.view.live(), key=lambda o: o.mid):
+                if r.mid == mid or not r.stored or r.pk is None:
+                    continue
+                re_ = self.schema.by_name[r.ent]
+                for ra in re_.to_ones():
+                    if ra.rel != mo.ent or not getattr(self.E[r.ent], ra.name).columns:
+                        continue
+                    if self.view.get_one(ra, r.mid) != mid:
+                        continue
+                    rh = self.handles.get(r.mid)
+                    if rh is None:
+                        R = self.E[r.ent]
+                        rh = R[r.pk[0] if len(r.pk) == 1 else r.pk]
+                        self.register(r.mid, rh)
+                    h = getattr(rh, ra.name)
+                    if h is not None:
+                        self.probe('seed_reached_by_navigation')
+                        self.register(mid, h)
+                        return h
         if len(e.pk_attrs) == 1 and not e.pk_attrs[0].is_rel:
             h = P[pk[0]] if how % 2 == 0 else P.get(**{e.pk_attrs[0].name: pk[0]})
         else:
@@ -345,6 +372,11 @@ class SeqRun(object):
                                   'op=%s|exc=%s%s' % (desc.split(' ')[0], type(e).__name__, '|fault' if fault else ''),
                                   '%s raised %s: %s, yet the session differs: %s'
                                   % (desc, type(e).__name__, str(e)[:120], '; '.join(d[:4])))
+                        if desc.startswith('del ') and not fault:
+                            # C15: a refused delete must be "an error and no change"
+                            self.viol('C15', 'refused-delete-changed-session', 'exc=%s' % type(e).__name__,
+                                      '%s was refused (%s: %s) but changed the session: %s'
+                                      % (desc, type(e).__name__, str(e)[:120], '; '.join(d[:4])))
             if isinstance(e, (AssertionError, KeyError, AttributeError, IndexError)) and not fault:
                 # an internal error instead of a clean refusal: the property only demands that the session is
                 # unchanged (checked above), not a particular exception class - recorded as an observation
